@@ -4,16 +4,29 @@ usage: tools/seed_matrix.py [seed-id ...]   (nothing else may use /repo meanwhil
 writes seeded/<id>/detection.json"""
 import json, os, subprocess, sys, re, time
 V = '/verif'
-ids = sys.argv[1:] or sorted(os.listdir(V + '/seeded'))
-env = dict(os.environ, HV_EVIDENCE_DIR='/tmp/hv-seed-evidence', HV_REPLAY_DIR='/tmp/hv-seed-replays')
+args = sys.argv[1:]
+SCRATCH = None
+if args and args[0] == '--scratch':
+    # work on a private copy of the repository (HV_REPO) instead of /repo's working tree: may run next to other checks
+    SCRATCH = args[1]; args = args[2:]
+ids = args or sorted(os.listdir(V + '/seeded'))
+env = dict(os.environ, HV_EVIDENCE_DIR='/tmp/hv-seed-evidence' + ('-s' if SCRATCH else ''), HV_REPLAY_DIR='/tmp/hv-seed-replays' + ('-s' if SCRATCH else ''))
+if SCRATCH: env['HV_REPO'] = SCRATCH; env['HCTL_VERIF_SCRATCH'] = '/var/tmp'
+def fresh_copy():
+    subprocess.run(['rm', '-rf', SCRATCH]); os.makedirs(SCRATCH)
+    subprocess.run(f'git -C /repo archive HEAD | tar x -C {SCRATCH} && cp /repo/Cargo.lock {SCRATCH}/', shell=True, check=True)
 for sid in ids:
     d = f'{V}/seeded/{sid}'
     meta = json.load(open(d + '/meta.json'))
     checks = []
     for c in [meta['property']] + list(meta.get('caught_by') or []):
         if c not in checks: checks.append(c)
-    assert subprocess.run(['git', '-C', '/repo', 'status', '--porcelain', '--untracked-files=no'], capture_output=True, text=True).stdout.strip() == '', '/repo is not clean'
-    if subprocess.run(['git', '-C', '/repo', 'apply', d + '/patch.diff']).returncode != 0: print(sid, 'patch does not apply', flush=True); continue
+    if SCRATCH:
+        fresh_copy()
+        if subprocess.run(['patch', '-p1', '-s', '-d', SCRATCH, '-i', d + '/patch.diff']).returncode != 0: print(sid, 'patch does not apply', flush=True); continue
+    else:
+        assert subprocess.run(['git', '-C', '/repo', 'status', '--porcelain', '--untracked-files=no'], capture_output=True, text=True).stdout.strip() == '', '/repo is not clean'
+        if subprocess.run(['git', '-C', '/repo', 'apply', d + '/patch.diff']).returncode != 0: print(sid, 'patch does not apply', flush=True); continue
     out = {}
     try:
         for c in checks:
@@ -26,6 +39,6 @@ for sid in ids:
             if out[c]['first_what']: out[c]['first_what'] = out[c]['first_what'][:300]
             print(sid, c, out[c]['exit'], out[c]['violations'], out[c]['inconclusive'], out[c]['wall_s'], flush=True)
     finally:
-        subprocess.run(['git', '-C', '/repo', 'checkout', '--', '.']); subprocess.run(['git', '-C', '/repo', 'clean', '-fdq', '-e', 'target'])
+        if not SCRATCH: subprocess.run(['git', '-C', '/repo', 'checkout', '--', '.']); subprocess.run(['git', '-C', '/repo', 'clean', '-fdq', '-e', 'target'])
     json.dump({'seed': sid, 'repo_head': subprocess.run(['git', '-C', '/repo', 'rev-parse', '--short', 'HEAD'], capture_output=True, text=True).stdout.strip(),
                'verif_head': subprocess.run(['git', '-C', V, 'rev-parse', '--short', 'HEAD'], capture_output=True, text=True).stdout.strip(), 'tier': 'quick', 'results': out}, open(d + '/detection.json', 'w'), indent=1)
